@@ -795,3 +795,214 @@ Proof.
     destruct (str_eqb (tp t) tau) eqn:Et; [|reflexivity]. apply str_eqb_eq in Et. specialize (H2 Et).
     destruct o as [[|] id]; [reflexivity | discriminate H2].
 Qed.
+
+(** ** A4. statement level: the statements of the properties selected by [q]
+    depend only on the part of the class features under those properties *)
+From Shexer Require Import Proofs.ShexBasics Proofs.InverseLemmas.
+
+Lemma filter_comm {A} (f h : A -> bool) l : filter f (filter h l) = filter h (filter f l).
+Proof.
+  induction l as [|x l IH]; [reflexivity|]. cbn [filter].
+  destruct (h x) eqn:Eh, (f x) eqn:Ef; cbn [filter]; rewrite ?Eh, ?Ef, IH; reflexivity.
+Qed.
+
+Lemma filter_length_le {A} (f : A -> bool) l : (List.length (filter f l) <= List.length l)%nat.
+Proof. induction l as [|x l IH]; cbn [filter List.length]; [lia|]. destruct (f x); cbn [List.length]; lia. Qed.
+
+Section PropFilter.
+  Variable fa : FreqAlg.
+  Variable cfg : scfg.
+  Variable q : str -> bool.
+
+  Definition qs (s : stmt) : bool := q (s_prop s).
+
+  Lemma qs_prop a b : s_prop b = s_prop a -> qs b = qs a.
+  Proof. unfold qs. intros ->. reflexivity. Qed.
+
+  Lemma same_tokens_prop a b : same_tokens a b = true -> s_prop b = s_prop a.
+  Proof. unfold same_tokens. intros H. apply andb_true_iff in H. destruct H as [H _]. apply str_eqb_eq in H. auto. Qed.
+
+  Lemma mergeable_prop a b : mergeable_with a b = true -> s_prop b = s_prop a.
+  Proof. unfold mergeable_with. intros H. apply andb_true_iff in H. destruct H as [_ H]. apply str_eqb_eq in H. auto. Qed.
+
+  (** a group relation [R a] that stays inside one property *)
+  Section Group.
+    Variable R : stmt -> stmt -> bool.
+    Hypothesis HR : forall a b, R a b = true -> s_prop b = s_prop a.
+
+    Lemma group_in_q a rest : qs a = true -> filter (R a) (filter qs rest) = filter (R a) rest.
+    Proof.
+      intros Ha. induction rest as [|b rest IH]; [reflexivity|]. cbn [filter].
+      destruct (R a b) eqn:E.
+      - rewrite (qs_prop a b (HR a b E)), Ha. cbn [filter]. rewrite E, IH. reflexivity.
+      - destruct (qs b); cbn [filter]; rewrite ?E; exact IH.
+    Qed.
+
+    Lemma others_in_q a rest : filter (fun b => negb (R a b)) (filter qs rest) = filter qs (filter (fun b => negb (R a b)) rest).
+    Proof. apply filter_comm. Qed.
+
+    Lemma others_out_q a rest : qs a = false -> filter qs (filter (fun b => negb (R a b)) rest) = filter qs rest.
+    Proof.
+      intros Ha. induction rest as [|b rest IH]; [reflexivity|]. cbn [filter].
+      destruct (R a b) eqn:E; cbn [negb filter].
+      - rewrite (qs_prop a b (HR a b E)), Ha. exact IH.
+      - destruct (qs b); rewrite IH; reflexivity.
+    Qed.
+
+    Lemma group_Forall_prop a rest : Forall (fun s => s_prop s = s_prop a) (a :: filter (R a) rest).
+    Proof.
+      constructor; [reflexivity|]. apply Forall_forall. intros b Hb. apply filter_In in Hb. apply (HR a b), Hb.
+    Qed.
+  End Group.
+
+  Lemma decide_best_prop cnt a g r :
+    Forall (fun s => s_prop s = s_prop a) g -> decide_best fa cfg cnt g = inl r -> s_prop r = s_prop a.
+  Proof. intros Hg H. apply (decide_best_inv fa cfg (fun s => s_prop s = s_prop a) (fun s k Hs => Hs) cnt g r Hg H). Qed.
+
+  Lemma merge_group_prop cnt a g r :
+    Forall (fun s => s_prop s = s_prop a) g -> merge_group fa cfg cnt g = inl r -> s_prop r = s_prop a.
+  Proof.
+    intros Hg H.
+    apply (merge_group_inv fa cfg (fun s => s_prop s = s_prop a) (fun s k Hs => Hs) (fun b i Hb _ => Hb)
+             (fun d tys g0 Hd _ _ => Hd) cnt g r Hg H).
+  Qed.
+
+  Lemma group_same_filter cnt : forall f l r f',
+    (List.length l <= f)%nat -> (List.length (filter qs l) <= f')%nat ->
+    group_same fa cfg f cnt l = inl r ->
+    group_same fa cfg f' cnt (filter qs l) = inl (filter qs r).
+  Proof.
+    induction f as [|f IH]; intros l r f' Hl Hl' H.
+    - destruct l; [|cbn in Hl; lia]. cbn in H. injection H as <-. destruct f'; reflexivity.
+    - destruct l as [|a rest]; [cbn in H; injection H as <-; destruct f'; reflexivity|].
+      cbn [group_same] in H.
+      match type of H with match ?p with _ => _ end = _ => destruct p as [r0|e] eqn:E0 end; [|discriminate H].
+      destruct (group_same fa cfg f cnt (filter (fun b => negb (same_tokens a b)) rest)) as [rs|e] eqn:E1; [|discriminate H].
+      injection H as <-. cbn [List.length] in Hl.
+      assert (Hr0 : qs r0 = qs a).
+      { apply qs_prop. destruct (filter (same_tokens a) rest) as [|b grp] eqn:Eg.
+        - injection E0 as <-. reflexivity.
+        - apply (decide_best_prop cnt a (a :: b :: grp) r0); [|exact E0]. rewrite <- Eg. apply group_Forall_prop. apply same_tokens_prop. }
+      assert (Hlo : (List.length (filter (fun b => negb (same_tokens a b)) rest) <= f)%nat).
+      { pose proof (filter_length_le (fun b => negb (same_tokens a b)) rest). lia. }
+      cbn [filter] in Hl' |- *. rewrite Hr0. destruct (qs a) eqn:Ea.
+      + cbn [List.length] in Hl'. destruct f' as [|f']; [lia|]. cbn [group_same].
+        rewrite (group_in_q same_tokens same_tokens_prop a rest Ea), E0.
+        rewrite (others_in_q same_tokens a rest).
+        rewrite (IH _ rs f' Hlo); [reflexivity| |exact E1].
+        rewrite <- (others_in_q same_tokens a rest).
+        pose proof (filter_length_le (fun b => negb (same_tokens a b)) (filter qs rest)). lia.
+      + rewrite <- (others_out_q same_tokens same_tokens_prop a rest Ea) in Hl' |- *.
+        apply (IH _ rs f' Hlo Hl' E1).
+  Qed.
+
+  Lemma group_nodes_filter cnt : forall f l r f',
+    (List.length l <= f)%nat -> (List.length (filter qs l) <= f')%nat ->
+    group_nodes fa cfg f cnt l = inl r ->
+    group_nodes fa cfg f' cnt (filter qs l) = inl (filter qs r).
+  Proof.
+    induction f as [|f IH]; intros l r f' Hl Hl' H.
+    - destruct l; [|cbn in Hl; lia]. cbn in H. injection H as <-. destruct f'; reflexivity.
+    - destruct l as [|a rest]; [cbn in H; injection H as <-; destruct f'; reflexivity|].
+      cbn [group_nodes] in H. cbn [List.length] in Hl.
+      destruct (str_eqb (s_prop a) (x_tau cfg) || negb (is_nonliteral_type (s_type a))) eqn:Ek.
+      + destruct (group_nodes fa cfg f cnt rest) as [rs|e] eqn:E1; [|discriminate H]. injection H as <-.
+        cbn [filter] in Hl' |- *. destruct (qs a) eqn:Ea.
+        * cbn [List.length] in Hl'. destruct f' as [|f']; [lia|]. cbn [group_nodes]. rewrite Ek.
+          rewrite (IH rest rs f'); [reflexivity|lia|lia|exact E1].
+        * apply (IH rest rs f'); [lia|exact Hl'|exact E1].
+      + match type of H with match ?p with _ => _ end = _ => destruct p as [r0|e] eqn:E0 end; [|discriminate H].
+        destruct (group_nodes fa cfg f cnt (filter (fun b => negb (mergeable_with a b)) rest)) as [rs|e] eqn:E1;
+          [|discriminate H].
+        injection H as <-.
+        assert (Hr0 : qs r0 = qs a).
+        { apply qs_prop. destruct (filter (mergeable_with a) rest) as [|b grp] eqn:Eg.
+          - injection E0 as <-. reflexivity.
+          - apply (merge_group_prop cnt a (a :: b :: grp) r0); [|exact E0]. rewrite <- Eg. apply group_Forall_prop. apply mergeable_prop. }
+        assert (Hlo : (List.length (filter (fun b => negb (mergeable_with a b)) rest) <= f)%nat).
+        { pose proof (filter_length_le (fun b => negb (mergeable_with a b)) rest). lia. }
+        cbn [filter] in Hl' |- *. rewrite Hr0. destruct (qs a) eqn:Ea.
+        * cbn [List.length] in Hl'. destruct f' as [|f']; [lia|]. cbn [group_nodes]. rewrite Ek.
+          rewrite (group_in_q mergeable_with mergeable_prop a rest Ea), E0.
+          rewrite (others_in_q mergeable_with a rest).
+          rewrite (IH _ rs f' Hlo); [reflexivity| |exact E1].
+          rewrite <- (others_in_q mergeable_with a rest).
+          pose proof (filter_length_le (fun b => negb (mergeable_with a b)) (filter qs rest)). lia.
+        * rewrite <- (others_out_q mergeable_with mergeable_prop a rest Ea) in Hl' |- *.
+          apply (IH _ rs f' Hlo Hl' E1).
+  Qed.
+
+  Lemma select_valid_filter cnt l r :
+    select_valid fa cfg cnt l = inl r -> select_valid fa cfg cnt (filter qs l) = inl (filter qs r).
+  Proof.
+    unfold select_valid. destruct l as [|a l0]; [intros H; injection H as <-; reflexivity|].
+    set (l := a :: l0).
+    destruct (group_same fa cfg (List.length l) cnt l) as [l1|e] eqn:E1; [|discriminate].
+    intros E2.
+    pose proof (group_same_filter cnt _ l l1 (List.length (filter qs l)) (le_n _) (le_n _) E1) as F1.
+    pose proof (group_nodes_filter cnt _ l1 r (List.length (filter qs l1)) (le_n _) (le_n _) E2) as F2.
+    destruct (filter qs l) as [|b l'] eqn:El.
+    - cbn in F1. injection F1 as F1. rewrite <- F1 in F2. cbn in F2. injection F2 as <-. reflexivity.
+    - rewrite F1. exact F2.
+  Qed.
+
+  Lemma base_statements_dfilter thr cnt inv pd :
+    base_statements fa thr cnt inv (dfilter q pd) = filter qs (base_statements fa thr cnt inv pd).
+  Proof.
+    induction pd as [|[p m] pd IH]; [reflexivity|].
+    assert (Ec : forall x l, base_statements fa thr cnt inv (x :: l) =
+                             base_statements fa thr cnt inv [x] ++ base_statements fa thr cnt inv l).
+    { intros x l. unfold base_statements. cbn [flat_map]. rewrite app_nil_r. reflexivity. }
+    rewrite (Ec (p, m) pd), filter_app, <- IH. unfold dfilter. cbn [filter fst].
+    assert (E : filter qs (base_statements fa thr cnt inv [(p, m)]) =
+                if q p then base_statements fa thr cnt inv [(p, m)] else []).
+    { destruct (q p) eqn:Eq.
+      - apply InverseLemmas.filter_all_true. apply base_statements_Forall. intros. unfold qs. cbn.
+        destruct H as [H|[]]. injection H as <- _. exact Eq.
+      - apply InverseLemmas.filter_all_false. apply base_statements_Forall. intros. unfold qs. cbn.
+        destruct H as [H|[]]. injection H as <- _. exact Eq. }
+    rewrite E. destruct (q p); [|reflexivity]. rewrite <- Ec. reflexivity.
+  Qed.
+
+  Lemma relax_prop cnt x y : relax fa cfg cnt x = inl y -> qs y = qs x.
+  Proof.
+    unfold relax. destruct (negb _).
+    - destruct (comment_of cfg x); [|discriminate]. intros H; inversion H; subst. reflexivity.
+    - intros H; inversion H; subst. reflexivity.
+  Qed.
+
+  Lemma post1_prop s : qs (post1 cfg s) = qs s.
+  Proof.
+    unfold qs, post1, generalize_exact, drop_comments.
+    destruct (x_disable_exact cfg), (x_disable_comments cfg); simpl; try reflexivity;
+      destruct (s_card s) as [k| | |]; simpl; try reflexivity; destruct (N.ltb 1 k); reflexivity.
+  Qed.
+
+  (** the statements of a direct-only run, restricted to the properties [q]
+      selects, are those of the run on the restricted features *)
+  Theorem shex_class_direct_dfilter thr counts cls e sh :
+    x_inverse cfg = false -> order_at fa (class_cnt counts (cls, e)) ->
+    shex_class fa cfg thr counts (cls, e) = inl sh ->
+    exists sh', shex_class fa cfg thr counts (cls, {| c_direct := dfilter q (c_direct e); c_inverse := c_inverse e |}) = inl sh' /\
+                sh_stmts sh' = filter qs (sh_stmts sh).
+  Proof.
+    intros Hinv Hord H.
+    assert (Ecfg : cfg = with_inverse false cfg) by (destruct cfg; cbn in Hinv; subst; reflexivity).
+    rewrite Ecfg in H |- *.
+    rewrite (shex_class_inverse_false fa cfg thr counts _ Hord) in H.
+    change (class_cnt counts (cls, {| c_direct := dfilter q (c_direct e); c_inverse := c_inverse e |}))
+      with (class_cnt counts (cls, e)) in *.
+    rewrite (shex_class_inverse_false fa cfg thr counts (cls, {| c_direct := dfilter q (c_direct e); c_inverse := c_inverse e |}) Hord).
+    change (class_cnt counts (cls, {| c_direct := dfilter q (c_direct e); c_inverse := c_inverse e |}))
+      with (class_cnt counts (cls, e)).
+    set (cnt := class_cnt counts (cls, e)) in *. cbn [snd c_direct] in *.
+    destruct (select_valid fa cfg cnt (sort_desc fa cnt (base_statements fa thr cnt false (c_direct e)))) as [vd|er] eqn:Ev;
+      [|discriminate H].
+    cbn [bind_res] in H. destruct (tune fa cfg cnt vd) as [st|er] eqn:Et; [|discriminate H].
+    cbn [map_res] in H. injection H as <-.
+    rewrite base_statements_dfilter, <- (filter_sort_desc fa cnt Hord qs).
+    rewrite (select_valid_filter cnt _ vd Ev). cbn [bind_res].
+    rewrite (tune_filter fa cfg cnt qs vd st Hord post1_prop (relax_prop cnt) Et). cbn [map_res].
+    eexists. split; reflexivity.
+  Qed.
+End PropFilter.
